@@ -519,6 +519,98 @@ def check_cache_and_access(case, layout, path):
     return msgs
 
 
+# ---- the cache route across versions of the file: "the derived assembly / the index" are those of the bytes the file
+# holds NOW.  History: the file is indexed (cache files written), then replaced by other content, then one of the two
+# cache files is brought up to date by another tool (`samtools faidx` writes exactly <fasta>.fai; an AGP of the new
+# content saved as <fasta>.agp) - or neither is - and the file is loaded again.  Time stamps follow the history:
+# old cache files < FASTA < refreshed file (all distinct, set with os.utime).
+HISTORY_T0 = 1_700_000_000
+
+
+def fai_text(layout):
+    """the faidx lines of a rendered case, written here from its layout"""
+    return "".join(f"{lay['name']}\t{lay['length']}\t{lay['offset']}\t{lay['line_residues']}\t{lay['line_bytes']}\n" for lay in layout)
+
+
+def agp_text(case):
+    """an AGP of the maximal-run tiling of each record, written here"""
+    lines = []
+    for r in case.records:
+        p = 0
+        for i, t in enumerate(tiling_of(r.seq), 1):
+            if t[0] == "G":
+                lines.append(f"{r.name}\t{p + 1}\t{p + t[1]}\t{i}\tU\t{t[1]}\tscaffold\tyes\tproximity_ligation")
+                p += t[1]
+            else:
+                lines.append(f"{r.name}\t{t[1]}\t{t[2]}\t{i}\tW\t{r.name}\t{t[1]}\t{t[2]}\t+")
+                p = t[2]
+    return "\n".join(lines) + "\n"
+
+
+def check_replaced(old, case, path, refreshed):
+    """old, case: the file's earlier and present content; refreshed: "fai" | "agp" | "none" -> messages"""
+    fai, agp = pathlib.Path(str(path) + ".fai"), pathlib.Path(str(path) + ".agp")
+    for f in (fai, agp):
+        f.unlink(missing_ok=True)
+    old.write(path)
+    fi = FastaIndex(path)
+    try:
+        fi.auto_load()
+    except Exception as e:  # noqa: BLE001
+        return [f"auto_load raised {short(e)} on the earlier, well-formed version of the file"]
+    finally:
+        close_index(fi)
+    for f in (fai, agp):
+        os.utime(f, (HISTORY_T0, HISTORY_T0))
+    layout = case.write(path)
+    os.utime(path, (HISTORY_T0 + 10, HISTORY_T0 + 10))
+    if refreshed == "fai":
+        fai.write_text(fai_text(layout))
+        os.utime(fai, (HISTORY_T0 + 20, HISTORY_T0 + 20))
+    elif refreshed == "agp":
+        agp.write_text(agp_text(case))
+        os.utime(agp, (HISTORY_T0 + 20, HISTORY_T0 + 20))
+    left = {"fai": "its .fai rewritten for the new content (newer than the file), the .agp left from the old content (older than the file)",
+            "agp": "its .agp rewritten for the new content (newer than the file), the .fai left from the old content (older than the file)",
+            "none": "both cache files left from the old content (older than the file)"}[refreshed]  # fmt: skip
+    what = f"file indexed, then replaced by other content, {left}, then loaded"
+    fi2 = FastaIndex(path, 3)
+    try:
+        fi2.auto_load()
+        msgs = check_index(case, layout, fi2.index, fi2.assembly, what)
+        msgs += check_random_access(case, fi2, what)
+        if not msgs:
+            msgs += check_stream_back(case, fi2, fi2.assembly, case.width, what)
+    except Exception as e:  # noqa: BLE001
+        msgs = [f"{what}: raised {short(e)} on a well-formed file"]
+    finally:
+        close_index(fi2)
+    return [m + " - the index / derived assembly handed out is not that of the present content of the file" for m in msgs]
+
+
+def replaced_pairs(quick, rng):
+    """(earlier content, present content) of one file name"""
+    R = G.Rec
+    pairs = [
+        # same names, other lengths and runs
+        (G.FastaCase([R("s1", b"ACGTACGTNNNNACGTACGTAC"), R("s2", b"ttgcaNacg", b" d")], 5, b"\n", True), G.FastaCase([R("s1", b"ACGTNNACGTAC"), R("s2", b"ttgcaacgGGCCNNNNNA", b" d")], 5, b"\n", True)),
+        # same names, same lengths, same line width: only the runs lie elsewhere
+        (G.FastaCase([R("s1", b"ACGTACGTNNNNACGTACGTAC"), R("s2", b"NNtgcaacg")], 4, b"\n", True), G.FastaCase([R("s1", b"ACGTNNNNACGTACGTACGTAC"), R("s2", b"ttgcaacNN")], 4, b"\n", True)),
+        # same residues, other line width and terminator (the .agp would still fit, the .fai would not)
+        (G.FastaCase([R("s1", b"ACGTACGTNNNNACGTACGTAC"), R("s2", b"tgNca")], 60, b"\n", True), G.FastaCase([R("s1", b"ACGTACGTNNNNACGTACGTAC"), R("s2", b"tgNca")], 7, b"\r\n", True)),
+        # a record more / a record fewer / other names
+        (G.FastaCase([R("s1", b"ACGTNNACGT")], 3, b"\n", True), G.FastaCase([R("s1", b"ACGTNNACGT"), R("s2", b"GGNNNCC")], 3, b"\n", False)),
+        (G.FastaCase([R("a", b"ACGTNNACGT"), R("b", b"GGNNNCC"), R("c", b"nnACGT")], 4, b"\r\n", True), G.FastaCase([R("b", b"GGNNNCCA"), R("a", b"ACGTNACGT")], 4, b"\r\n", True)),
+        (G.FastaCase([R("old1", b"ACGTACGTAC"), R("old2", b"ACNNNGT")], 60, b"\n", True), G.FastaCase([R("new1", b"NACGTACGTA"), R("new2", b"ACGT"), R("new3", b"TTNAA")], 2, b"\n", True)),
+    ]
+    for _ in range(0 if quick else 400):
+        a, b = G.random_case(rng, max_len=120), G.random_case(rng, max_len=120)
+        if rng.random() < 0.5:  # same layout, same names as far as they go
+            b = G.FastaCase(b.records, a.width, a.eol, a.final_newline)
+        pairs.append((a, b))
+    return pairs
+
+
 def why_rejected(data):
     """the reason the statement gives for rejecting these bytes, from a line-by-line reading of them"""
     names, lengths = [], []
@@ -558,7 +650,10 @@ def replay(inp):
             return check_rejected(inp["data"].encode("latin-1"), path)
         case = Case.from_spec(inp["case"])
         layout = case.write(path)
-        if inp["kind"] == "cache":
+        if inp["kind"] == "replaced":
+            msgs = check_replaced(Case.from_spec(inp["old"]), case, path, inp["refreshed"])
+            G.remove_with_caches(path)
+        elif inp["kind"] == "cache":
             msgs = check_cache_and_access(case, layout, path)
         else:
             msgs = check_case_buffer(case, layout, path, inp["buffer"], line_lengths=(60,) if case.recipe else (60, case.width))
@@ -613,6 +708,9 @@ def run(tier, seed, **opts):
         "byte value but CR/LF; ASCII white space between '>' and the name of the first / a middle / the last / every record), "
         "each with a cold-then-warm load through the .fai/.agp cache; files with lines of more than 8 KiB / 64 KiB / 1 MiB / 2 MiB "
         "(unwrapped records and wide wrapped ones, made from a recipe; one such file in the quick tier); "
+        "histories of one file name: indexed, replaced by other content (other lengths / only other runs / only another layout / records "
+        "added, dropped, renamed; thorough: random pairs), then the .fai alone, the .agp alone or neither rewritten for the new content "
+        "(time stamps in the order of the events), then loaded: index, tiling, random access and stream-back judged against the present content; "
         "one evaluation = one (file, buffer) or (file, cache round trip); non-trivial = distinct (file, buffer) "
         "whose file has a record of more than one line, more than one run, or no residues"
     )
@@ -859,6 +957,22 @@ def run(tier, seed, **opts):
             run_case(case, col, path, bufs, sample=n_long == 1, cache=True, first_only=True, line_lengths=(60,))
             for memo in (_long_seq, _tiling_big, _masked_big):
                 memo.cache_clear()
+        # 8. the cache route after the file was replaced: one cache file refreshed by another tool, or none
+        crowded = allowance(4)
+        n_replaced = 0
+        for pi, (a, b) in enumerate(replaced_pairs(quick, rng)):
+            for refreshed in ("fai", "agp", "none"):
+                if crowded():
+                    break
+                n_replaced += 1
+                try:
+                    msgs = check_replaced(a, b, path, refreshed)
+                finally:
+                    G.remove_with_caches(path)
+                inp = {"kind": "replaced", "old": a.spec(), "case": b.spec(), "refreshed": refreshed}
+                if msgs:
+                    col.fail(msgs[0], inp)
+                col.case(("replaced", a.key(), b.key(), refreshed), nontrivial=True, sample=inp if (pi, refreshed) == (0, "fai") else None)
         # 5. files that must be rejected
         rejected = [b"", b"\n", b"ACGT\n", b"ACGT\nAC\n"]
         for eol in (b"\n", b"\r\n"):
@@ -918,7 +1032,7 @@ def run(tier, seed, **opts):
             f"byte-level header variety ({len(warm_names)} names cold-then-warm, {len(direct_names)} indexed directly, "
             f"{len(hash_names)} names starting with '#' cold-then-warm in files of their own [known class {KNOWN_HASH}], "
             f"{len(descs6)} separator+description byte strings, {n_lead} files with white space behind '>'); {n_long} files of 1-2.5 MB "
-            f"with lines longer than 8 KiB .. 2 MiB; {len(rejected)} malformed files "
+            f"with lines longer than 8 KiB .. 2 MiB; {n_replaced} replaced-file histories; {len(rejected)} malformed files "
             "(no records; duplicate names incl. copies without residues and names with special characters)"
         ),
         exhaustive=False,
